@@ -169,7 +169,7 @@ func runForeign(c jobCase) {
 	leafPaths(schemaRoot, nil, nil, &lps)
 	// canonical rows (tokens reduced modulo the pool sizes, as the reader will report them)
 	ctx := buildCtx{poff: c.Poff}
-	spec := pq.FileSpec{Extras: fs.Extras, FileOffset: fs.FileOff}
+	spec := pq.FileSpec{Extras: fs.Extras, FileOffset: fs.FileOff, LongForm: fs.Seed%3 == 0}
 	spec.Schema = []pq.SchemaElem{{Name: "schema", Type: -1, CType: -1, Rep: -1, NumChildren: len(schemaRoot)}}
 	schemaElems(schemaRoot, &spec.Schema)
 	colEntries := make([][][]int, len(cols))
